@@ -244,7 +244,7 @@ func TestC08(t *testing.T) {
 		if sc.Binary {
 			frames, closed, problem, err := cl.RecvBinUntil(sentOpq)
 			if err != nil {
-				undecided(t, rec, fmt.Sprintf("C08 %s: %v", sc, err))
+				undecidedOrHang(t, rec, st, cl, err, fmt.Sprintf("C08 %s: %v (pipeline: %s)", sc, err, strings.Join(cmdsString(cmds), " | ")))
 			}
 			if problem != "" {
 				fail("malformed reply frame: %s (after %d frames)", problem, len(frames))
@@ -293,7 +293,7 @@ func TestC08(t *testing.T) {
 				}
 				got, err := cl.RecvText(kind)
 				if err != nil {
-					undecided(t, rec, fmt.Sprintf("C08 %s: %v", sc, err))
+					undecidedOrHang(t, rec, st, cl, err, fmt.Sprintf("C08 %s: %v (pipeline: %s)", sc, err, strings.Join(cmdsString(cmds), " | ")))
 				}
 				if c.Kind == wire.RawBytes {
 					if got.Class != wire.Error || len(got.Problems) > 0 {
